@@ -406,6 +406,7 @@ async fn one_case(report: &Report, seed: u64, idx: u64, thorough: bool) {
     report.count(&format!("overlap_{class}"), 1);
     report.count(if no_retry { "mode_a_no_retries" } else { "mode_b_retries" }, 1);
     let mut findings = sc.findings.clone();
+    reclassify_key_index_merge(&out, &mut findings);
     if findings.is_empty() {
         let (f, n) = aftermath(&out, &sc).await;
         report.count("aftermath_rows_compared", n);
@@ -443,11 +444,12 @@ pub fn run(args: &Args) -> i32 {
         args,
         "exploration",
         "seeded pairs/triples of delete/update/merge_insert over id sets with overlap class {disjoint,1 row,partial,whole fragment,spanning} x retries {0,default} x schedule {every actor order, uniform, PCT, round robin}; a case is non-trivial iff an op committed over a concurrent transaction or failed with a conflict; distinct = hash(ops, read versions, results, released storage-call sequence)",
-        (60, 900),
+        (75, 900),
     )
     .with_min_nontrivial(50);
     let thorough = args.tier == vmon::report::Tier::Thorough;
-    let max_cases = args.tier.pick(3_000, 200_000);
+    // quick: a fixed case set per seed (reached in ~40 s on an idle 16-core machine); the budget is only a safety cap
+    let max_cases = args.tier.pick(2_400, 200_000);
     let seed = args.seed;
     if let Some(path) = &args.replay {
         return replay(args, &report, path);
